@@ -82,3 +82,32 @@ SPECS["C24"] = {
     "assumptions": ["serde Serializer/SerializeMap/SerializeSeq/SerializeStruct calls are contracts that record events", "core::fmt template decoding per library/core/src/fmt/mod.rs",
                     "Display of Tag is (GGGG,EEEE) upper-case (Kani harness of C14)", "each case cross-checked against the real serde_json output on a solver-chosen input"],
 }
+
+SPECS["C08"] = {
+    "parts": [{"engine": "kani", "group": "enc", "select": r"^c08_", "mem_gb": 8, "timeout": {"quick": 1200, "thorough": 2400},
+               "thorough_only": r"locked_state", "per_harness": {r"locked_state": {"mem_gb": 30, "timeout": 2400}}}],
+    "functions": ["dicom_encoding::decode::adaptive_le::AdaptiveVRLittleEndianDecoder::<D>::decode_header (all three states), vr_compatible_with_virtual, resolve_vr",
+                  "compared with ExplicitVRLittleEndianDecoder::decode_header / ImplicitVRLittleEndianDecoder::<D>::decode_header"],
+    "bounds": "the deciding header: 24/16 arbitrary bytes with a solver-chosen dictionary answer; each locked state: reached through one concrete first element, then 12/8 arbitrary bytes with a solver-chosen dictionary answer "
+              "chosen by the solver (absent / Exact(any of 34 VRs) / Xs / Ox / Px / Lt); also a leading item delimiter before the deciding element",
+    "outside": "DataSetReader::new_with_ts_cs_options(flexible_decoding) wiring (it hard-wires the standard dictionary); value reading between headers (the decoders do not look at values)",
+    "assumptions": ["instantiation D = harness stub dictionary", "ambiguity condition as in the statement: length bytes spelling a VR that the dictionary does not contradict are excluded on the implicit side"],
+}
+
+SPECS["C14"] = {
+    "parts": [{"engine": "kani", "group": "enc", "select": r"^c14_", "mem_gb": 10, "timeout": {"quick": 1500, "thorough": 2400}}],
+    "functions": ["dicom_core::header::<Tag as FromStr>::from_str, parse_tag_part", "<Tag as Display>::fmt (real core::fmt into a fixed sink)"],
+    "bounds": "parsing: EVERY valid UTF-8 string of byte length 0, 7, 8, 9, 10, 11, 12 (all bytes symbolic); printing: all 2^32 tags, canonical form compared byte by byte, "
+              "print->parse identity for the three forms incl. lower case",
+    "outside": "strings longer than 12 bytes (rejected by the length match before any indexing); attribute selectors and dictionary keywords (text syntax of selectors: not encoded yet)",
+    "assumptions": ["oracle: independent recogniser of the three forms in kani/enc/src/c14.rs"],
+}
+
+SPECS["C26"] = {
+    "parts": [{"engine": "kani", "group": "ul", "select": r"^c26_", "mem_gb": 8, "timeout": {"quick": 1200, "thorough": 2400}}],
+    "functions": ["dicom_ul::association::pdata::PDataWriter::{new (via cfg(kani) hook), write, finish, dispatch_pdu, finish_impl}", "pdata::setup_pdata_header"],
+    "bounds": "max_pdu_length in {7, 10, 12} (buffer of 13-18 bytes), two writes whose sizes are instance parameters covering every fill level (empty, partial, exactly full, overflow), "
+              "then finish; payload bytes and presentation context id symbolic; working transport",
+    "outside": "more than two writes before finish (each write starts from a buffer fill level that one of the instances reaches); large maximum lengths; the asynchronous writer and the reader (not yet built)",
+    "assumptions": ["hook: cfg(kani) public constructor (repo commit 655337a)", "oracle: PS3.8 9.3.5 reading of the emitted bytes in kani/ul/src/c26.rs"],
+}
